@@ -471,7 +471,8 @@ class TRSpec(object):
 
     def c_extract(self, ex, st, args, kw, node, star, dstar):
         """_extract_recorded_output(recording, direct): the Output entries of the recording (proved in specs/tr_units.py:extract)"""
-        o = st.new_seq(fresh('extracted', SeqV)); st.g['notes'].append(('extract', o, args[0])); return [(st, ('val', o))]
+        direct = kw.get('direct_access', args[1] if len(args) > 1 else B(False))
+        o = st.new_seq(fresh('extracted', SeqV)); st.g['notes'].append(('extract', o, args[0], direct)); return [(st, ('val', o))]
 
     def c_post_metadata(self, ex, st, args, kw, node, star, dstar):
         """contract of _add_post_operation_metadata(recording, metadata, extractor, duration) -- proved against its body in
